@@ -26,7 +26,36 @@ def family(sig):
     return sig.rsplit("|", 1)[0]
 
 
+def gen_timeout_focus(rng):
+    """Directed family: a firing timeout layer over a poll layer whose cancel function is slow for
+    some submissions (the timeout thread is busy in virtual time), staggered submissions and
+    cancels by the owner before the deadline: who cancelled what must be counted right."""
+    nsubs = rng.choice([2, 3, 4])
+    poll = {"t": "poll", "interval": rng.choice([0.5, 1.0]), "after": rng.choice([3, 50]), "out": "ok",
+            "cancel_fn": rng.choice(["true", "true", "false"]),
+            "cancel_dur": {"default": 0, "subs": {str(k): rng.choice([0.2, 0.4, 0.8]) for k in range(nsubs) if rng.random() < 0.5}}}
+    layers = [poll, {"t": "timeout", "timeout": rng.choice([0.1, 0.2, 0.3])}]
+    if rng.random() < 0.3:
+        layers.append({"t": "cos"})
+    subs = {str(s): {"script": ["ok"], "dur": rng.choice([0, 0, 0.05])} for s in range(nsubs)}
+    ops = []
+    for s in range(nsubs):
+        if s and rng.random() < 0.7:
+            ops.append(["sleep", rng.choice([0.1, 0.2, 0.3])])
+        ops.append(["submit", s])
+        if rng.random() < 0.5:
+            ops.append(["sleep", rng.choice([0.02, 0.05, 0.1])])
+            ops.append(["cancel", s])
+    spec = {"base": {"kind": rng.choice(["sync", "pool"]), "n": 2, "name": None}, "layers": layers, "subs": subs,
+            "clients": [ops], "aux": False, "final_shutdown": None, "settle": 80.0}
+    spec["sim"] = runner.draw_sim_cfg(rng, est=700)
+    spec["sim"]["horizon_s"] = 5000
+    return spec
+
+
 def gen(rng, tier):
+    if rng.random() < 0.12:
+        return gen_timeout_focus(rng)
     depth = rng.choice([1, 1, 2, 2, 3])
     base = {"kind": rng.choice(["sync", "pool", "pool", "spy"]), "n": rng.choice([1, 2]), "name": rng.choice([None, "bx"])}
     nsubs = rng.choice([1, 2, 3, 4, 5])
@@ -37,6 +66,10 @@ def gen(rng, tier):
             L["count"] = rng.choice([1, 1, 2])
         if L["t"] == "poll":
             L["cancel_fn"] = rng.choice([None, "true", "false"])
+            if L["cancel_fn"] and rng.random() < 0.5:
+                # slow for some submissions only: keeps whoever cancels them (e.g. the timeout
+                # thread) busy in virtual time while other futures come and go
+                L["cancel_dur"] = {"default": 0, "subs": {str(k): rng.choice([0.2, 0.4]) for k in range(nsubs) if rng.random() < 0.4}}
             if rng.random() < 0.3:
                 L["raise_at"] = [rng.choice([1, 2, 3])]
         if L["t"] == "retry":
@@ -53,6 +86,8 @@ def gen(rng, tier):
     clients = [[] for _ in range(nclients)]
     for s in range(nsubs):
         c = rng.randrange(nclients)
+        if rng.random() < 0.3:
+            clients[c].append(["sleep", rng.choice([0.1, 0.3])])
         clients[c].append(["submit", s])
         if rng.random() < 0.4:
             c2 = rng.randrange(nclients)
@@ -83,6 +118,15 @@ def run(spec, env):
     env.objs["sr"] = sr
     sr.build()
     tap_submits(env, sr.chain)
+    orig_submit = sr.submit
+
+    def submit(s):
+        f = orig_submit(s)
+        if f is not None:
+            # done-callbacks run on the thread that completed / cancelled the future
+            f.add_done_callback(lambda fut, s=s: env.rec("fut-done", s, fut.cancelled()))
+        return f
+    sr.submit = submit
     sr.run_clients()
     env.sleep(2.0 if spec.get("shutdown_early") else spec["settle"])
     sr.finals()
@@ -217,12 +261,25 @@ def check(spec, env):
         # unless an inner layer's future was cancelled from below, which only a second timeout layer could do
         # (a client cancel() also returns True on a future the timeout already cancelled, so a
         # future both parties "cancelled" may belong to either: the count is bracketed)
-        lo = sum(1 for s_, st_ in first_finals.items() if st_ == "cancelled" and s_ not in client_true)
-        hi = sum(1 for s_, st_ in first_finals.items() if st_ == "cancelled")
+        # exact attribution: a future's done-callbacks run on the thread whose cancel() succeeded
+        ttids = set(t.tid for t in sim.threads if t.name.startswith("TimeoutExecutor"))
+        by_timeout = sum(1 for e in log if e[3] == "fut-done" and e[5] and e[2] in ttids and (not sd_seq or e[0] < sd_seq[0]))
+        after_sd = sum(1 for e in log if e[3] == "fut-done" and e[5] and e[2] in ttids and sd_seq and e[0] >= sd_seq[0])
+        # a future somebody else cancelled at (or after) its deadline may also have received the
+        # timeout's cancel(), which then returns True as well: those may be counted either way
+        T_ns = int(spec["layers"][i]["timeout"] * 1e9)
+        t_inv = {e[5]: e[1] for e in log if e[3] == "op" and e[4] == "submit"}
+        amb = 0
+        for e in log:
+            if e[3] == "fut-done" and e[5] and e[2] not in ttids and e[4] in t_inv:
+                if e[1] >= t_inv[e[4]] + T_ns - 2000000:
+                    amb += 1
         v = snap.get(("more_executors_timeout", cur), (0, 0))[0]
-        if not (lo <= v <= hi):
+        exact = by_timeout + after_sd
+        if not (exact <= v <= exact + amb):
             out.append({"oracle": "timeout-counter", "sig": "timeout-total-mismatch",
-                        "msg": "timeout{executor=%s} = %r but between %d and %d top-level futures were cancelled by the timeout; layers %s" % (cur, v, lo, hi, types)})
+                        "msg": "timeout{executor=%s} = %r but %d top-level futures were cancelled by the timeout thread (+%d cancelled by others at or after their deadline); layers %s"
+                               % (cur, v, exact, amb, types)})
     # shutdown_cancel_total: futures the final shutdown() of a cancel-on-shutdown top layer cancelled
     if spec["layers"] and spec["layers"][-1]["t"] == "cos" and shut and sum(1 for L in spec["layers"] if L["t"] == "cos") == 1:
         cur = bname if bk in ("sync", "pool") else "default"
